@@ -1078,3 +1078,71 @@ func init() {
 		return tt.MulScaled(diff, 1000000000)
 	}
 }
+
+// sort.Slice / sort.SliceStable use reflectlite.Swapper (unsafe). For slices of at most
+// 12 elements the real implementations are exactly the insertion sort below
+// (pdqsort_func and stable_func both start with insertionSort for short ranges), with
+// `less` the caller's closure executed from source; longer slices are not decided.
+func init() {
+	small := func(name string, limit int) intrinsic {
+		return func(in *Interp, c *callCtx) Value {
+			x, ok := c.args[0].(Iface)
+			if !ok || x.t == nil {
+				in.goPanic(c.g, "other", name+" of nil", nil)
+				return nil
+			}
+			sv, ok := x.v.(SliceV)
+			if !ok {
+				in.unsupported("%s of a non-slice", name)
+			}
+			less, ok := c.args[1].(*Closure)
+			if !ok || less == nil {
+				in.unsupported("%s with a nil less function", name)
+			}
+			n := sv.len
+			if n > limit {
+				panic(pathEnd{kind: "unwind", msg: name + " of more than " + fmt.Sprint(limit) + " elements (reflection-based swapper not modelled)"})
+			}
+			in.stubsHit[name+": insertion sort as in the real implementation for short slices"]++
+			k := func(i int) Value { return in.tt.Const(64, uint64(i)) }
+			for i := 1; i < n; i++ {
+				for j := i; j > 0; j-- {
+					lt := in.callSync(c.g, less, []Value{k(j), k(j - 1)}).(*Term)
+					if !in.branch(lt) {
+						break
+					}
+					a, b := in.elem(sv.arr, sv.off+j), in.elem(sv.arr, sv.off+j-1)
+					va, vb := in.load(a), in.load(b)
+					in.store(a, vb)
+					in.store(b, va)
+				}
+			}
+			return nil
+		}
+	}
+	// sort.SliceIsSorted: for i := n-1; i > 0; i-- { if less(i, i-1) { return false } }
+	intrinsics["sort.SliceIsSorted"] = func(in *Interp, c *callCtx) Value {
+		x, ok := c.args[0].(Iface)
+		if !ok || x.t == nil {
+			in.goPanic(c.g, "other", "sort.SliceIsSorted of nil", nil)
+			return nil
+		}
+		sv, ok := x.v.(SliceV)
+		if !ok {
+			in.unsupported("sort.SliceIsSorted of a non-slice")
+		}
+		less, ok := c.args[1].(*Closure)
+		if !ok || less == nil {
+			in.unsupported("sort.SliceIsSorted with a nil less function")
+		}
+		for i := sv.len - 1; i > 0; i-- {
+			lt := in.callSync(c.g, less, []Value{in.tt.Const(64, uint64(i)), in.tt.Const(64, uint64(i-1))}).(*Term)
+			if in.branch(lt) {
+				return in.tt.False
+			}
+		}
+		return in.tt.True
+	}
+	intrinsics["sort.Slice"] = small("sort.Slice", 12)
+	intrinsics["sort.SliceStable"] = small("sort.SliceStable", 12)
+}
